@@ -820,7 +820,10 @@ def _strategy(tier, ki):
             "threads": threads,
             "layouts": draw(st.lists(st.sampled_from(LAYOUTS), min_size=4, max_size=4)),
             "fields": draw(st.lists(gen.field_spec(kinds=fk, max_mag_exp=8), min_size=4, max_size=4)),
-            "scalars": draw(st.lists(gen.floats(-2.0, 2.0, 32), min_size=4, max_size=4)),
+            # scalar arguments (fixed values, prefactors, penalties): exact special values are admissible inputs and are where
+            # "nothing to do" shortcuts live
+            "scalars": draw(st.lists(st.one_of(gen.floats(-2.0, 2.0, 32), gen.floats(-2.0, 2.0, 32),
+                                               st.sampled_from([0.0, 0.0, 1.0, -1.0, -0.0])), min_size=4, max_size=4)),
             "dx": dx,
             "couple": draw(st.integers(0, 2)) == 0,
         }
@@ -839,7 +842,7 @@ def _body(case, ctx):
     minimal = all(n == e["min_n"] for n in h.shape)
     ctx.note(nontrivial=h.noncontig or len(set(h.shape)) > 1 or minimal,
              labels=[key[0], "noncontig" if h.noncontig else "contig", "minimal_shape" if minimal else "larger_shape",
-                     case["dtype"], f"threads_{case['threads']}"])
+                     case["dtype"], f"threads_{case['threads']}"] + (["scalar_argument_exactly_zero"] if any(v == 0.0 for v in case["scalars"][:3]) else []))
 
 
 def _inventory_cases(tier):
